@@ -214,4 +214,147 @@ def rule_closed(ctx) -> RuleResult:
     return res
 
 
-RULES = [rule_deleg, rule_closed]
+def rule_fwd(ctx) -> RuleResult:
+    res = RuleResult(
+        "C13.FWD",
+        "C13",
+        "inside every function that takes `extent` and `inverse`, each call to a mask_by_extent / copy_from_extent "
+        "(method or the shared predicate) passes inverse=<the caller's inverse> and the caller's extent; every "
+        "copy_from_extent that computes a mask hands exactly that mask to copy(mask=...)",
+        floor=12,
+    )
+    p = ctx.p
+    for fn in p.all_functions():
+        params = fn.params + [a.arg for a in fn.node.args.kwonlyargs]
+        if "inverse" not in params or "extent" not in params:
+            continue
+        for c in ast.walk(fn.node):
+            if not isinstance(c, ast.Call):
+                continue
+            nm = c.func.attr if isinstance(c.func, ast.Attribute) else getattr(c.func, "id", None)
+            if nm not in ("mask_by_extent", "copy_from_extent"):
+                continue
+            kw = {k.arg: unparse(k.value) for k in c.keywords}
+            # positional layout: function form (locations, extent, inverse); method forms (extent, ..., inverse=...)
+            pos = [unparse(a) for a in c.args]
+            is_pred = isinstance(c.func, ast.Name)
+            explicit_self = isinstance(c.func, ast.Attribute) and isinstance(c.func.value, ast.Name) and c.func.value.id[:1].isupper()
+            ext_ok = kw.get("extent") == "extent" or "extent" in pos
+            inv_ok = kw.get("inverse") == "inverse" or (is_pred and len(pos) >= 3 and pos[2] == "inverse")
+            ok = ext_ok and inv_ok
+            res.inst(f"{fn.qualname}:{c.lineno} {unparse(c.func)}(...)", nontrivial=True, ok=ok)
+            if not ok:
+                what = "inverse" if not inv_ok else "extent"
+                res.find(fn.cls.name if fn.cls else fn.module.short, fn.name, f"call to {unparse(c.func)} does not forward `{what}`",
+                         f"{fn.module.relpath}:{c.lineno}",
+                         f"the caller's `{what}` is dropped on the way to {nm}: the nested selection is made with the default instead of the requested one")
+        if fn.name == "copy_from_extent":
+            # mask flow: name bound from a *.mask_by_extent(...) call must be the value of copy(mask=...)
+            masks = {}
+            for n in ast.walk(fn.node):
+                if isinstance(n, ast.Assign) and len(n.targets) == 1 and isinstance(n.targets[0], ast.Name):
+                    if any(isinstance(x, ast.Call) and (getattr(x.func, "attr", None) or getattr(x.func, "id", None)) == "mask_by_extent" for x in ast.walk(n.value)):
+                        masks.setdefault(n.targets[0].id, n.lineno)
+            copies = [c for c in ast.walk(fn.node) if isinstance(c, ast.Call) and isinstance(c.func, ast.Attribute) and c.func.attr == "copy"
+                      and any(k.arg == "mask" for k in c.keywords)]
+            for c in copies:
+                mv = next(unparse(k.value) for k in c.keywords if k.arg == "mask")
+                ok = mv in masks
+                # Grid2D derives the sub-grid mask from the predicate's result through np.any / np.kron
+                if not ok:
+                    derived = set(masks)
+                    changed = True
+                    while changed:
+                        changed = False
+                        for n in ast.walk(fn.node):
+                            if isinstance(n, ast.Assign) and len(n.targets) == 1 and isinstance(n.targets[0], ast.Name) and n.targets[0].id not in derived \
+                                    and any(isinstance(x, ast.Name) and x.id in derived for x in ast.walk(n.value)):
+                                derived.add(n.targets[0].id)
+                                changed = True
+                    ok = mv in derived
+                res.inst(f"{fn.qualname}:{c.lineno} copy(mask={mv})", nontrivial=True, ok=ok)
+                if not ok:
+                    res.find(fn.cls.name if fn.cls else fn.module.short, fn.name, f"copy(mask={mv}) is not the computed extent mask",
+                             f"{fn.module.relpath}:{c.lineno}", "the copy is not restricted to the elements selected by mask_by_extent")
+    return res
+
+
+def rule_orphan(ctx) -> RuleResult:
+    res = RuleResult(
+        "C13.ORPHAN",
+        "C13",
+        "CellObject.mask_by_extent: on every path that returns a mask while the object has cells, the vertex mask has "
+        "been intersected with the vertices used by fully-selected cells (cells kept only when all their vertices "
+        "qualify; vertices kept only when a kept cell uses them) — the intersection is skipped only when cells is None",
+        floor=3,
+    )
+    p = ctx.p
+    from ..cfg import CFG
+    from ..kinds import reach
+
+    K = p.cls("CellObject")
+    fn = K.methods.get("mask_by_extent")
+    if fn is None:
+        raise AnalysisError("anchor CellObject.mask_by_extent not found")
+    g = CFG(fn.node)
+    sn = fn.self_name or "self"
+    # the mask variable: bound from the predicate
+    mask_vars = [n.targets[0].id for n in ast.walk(fn.node) if isinstance(n, ast.Assign) and isinstance(n.targets[0], ast.Name)
+                 and isinstance(n.value, ast.Call) and getattr(n.value.func, "id", None) == "mask_by_extent"]
+    if not mask_vars:
+        raise AnalysisError("CellObject.mask_by_extent: vertex mask from the shared predicate not found")
+    mv = mask_vars[0]
+
+    def all_axis1(node):
+        return isinstance(node, ast.Call) and unparse(node.func) in ("np.all", "numpy.all") and any(k.arg == "axis" and unparse(k.value) == "1" for k in node.keywords)
+
+    # (1) cell selection: np.all(mask[self.cells], axis=1)
+    cell_sel = [n for n in ast.walk(fn.node) if isinstance(n, ast.Assign) and all_axis1(n.value) and n.value.args
+                and unparse(n.value.args[0]) == f"{mv}[{sn}.cells]"]
+    res.inst("cell mask = np.all(vertex mask[self.cells], axis=1)", ok=bool(cell_sel))
+    if not cell_sel:
+        res.find("CellObject", "mask_by_extent", "cells are not selected by np.all(<vertex mask>[self.cells], axis=1)", fn.where,
+                 "a cell must be kept exactly when all of its vertices qualify")
+        return res
+    cm = cell_sel[0].targets[0].id
+    # (2) used-vertex mask: zeros, then [self.cells[cell_mask].flatten()] = True
+    used = [n for n in ast.walk(fn.node) if isinstance(n, ast.Assign) and isinstance(n.targets[0], ast.Subscript) and isinstance(n.targets[0].value, ast.Name)
+            and f"{sn}.cells[{cm}]" in unparse(n.targets[0].slice) and unparse(n.value) == "True"]
+    zero_ok = False
+    if used:
+        um = used[0].targets[0].value.id
+        zero_ok = any(isinstance(n, ast.Assign) and unparse(n.targets[0]) == um and isinstance(n.value, ast.Call)
+                      and unparse(n.value.func) in ("np.zeros_like", "np.zeros") for n in ast.walk(fn.node))
+    res.inst("used-vertex mask starts all False and is set at the vertices of kept cells", ok=bool(used) and zero_ok)
+    if not (used and zero_ok):
+        res.find("CellObject", "mask_by_extent", "used-vertex mask is not (zeros; [self.cells[cell mask].flatten()] = True)", fn.where,
+                 "vertices of partially selected cells would be kept (orphans) or vertices of kept cells dropped")
+        return res
+    um = used[0].targets[0].value.id
+    # (3) every path returning the mask with cells present passes `mask &= used`
+    def inter(n):
+        a = n.ast
+        return isinstance(a, ast.AugAssign) and isinstance(a.op, ast.BitAnd) and unparse(a.target) == mv and unparse(a.value) == um \
+            or isinstance(a, ast.Assign) and unparse(a.targets[0]) == mv and unparse(a.value) in (f"{mv} & {um}", f"{um} & {mv}", f"np.logical_and({mv}, {um})", f"np.logical_and({um}, {mv})")
+
+    if not any(inter(n) for n in g.nodes):
+        res.inst("vertex mask &= used-vertex mask", ok=False)
+        res.find("CellObject", "mask_by_extent", "the vertex mask is never intersected with the used-vertex mask", fn.where,
+                 "orphan vertices (of cells cut by the box) stay selected")
+        return res
+    rets = [n for n in g.nodes if n.kind == "return" and n.ast is not None
+            and any(isinstance(x, ast.Name) and x.id == mv for x in ast.walk(n.ast.value if isinstance(n.ast, ast.Return) else n.ast))]
+    if not rets:
+        raise AnalysisError("CellObject.mask_by_extent: no exit returning the vertex mask recognised")
+    facts = {f"notnone:{sn}.cells": True}
+    seen = reach(g, [g.entry], sn, facts, avoid=inter)
+    bad = [r for r in rets if r in seen]
+    res.inst(f"{len(rets)} mask-returning exits dominated by the intersection when cells is not None", nontrivial=True, ok=not bad)
+    for r in bad:
+        res.find("CellObject", "mask_by_extent", "a path returns the vertex mask without the orphan intersection although cells exist",
+                 f"{fn.module.relpath}:{r.lineno}",
+                 "with cells present, some inputs skip the orphan removal: vertices of cells cut by the box are selected without any cell using them")
+    return res
+
+
+RULES = [rule_deleg, rule_closed, rule_fwd, rule_orphan]
